@@ -82,8 +82,8 @@ Section Items.
   Definition contents (d : source) : list A := match d with SList l => l | SIter l => l end.
 
   (* __iter__: transform applied to each item in order, false results skipped; the transform may be stateful *)
-  Variable St : Type.
-  Fixpoint iterate (t : St -> A -> St * option A) (s : St) (l : list A) : St * list A :=
+  Variables St B : Type.
+  Fixpoint iterate (t : St -> A -> St * option B) (s : St) (l : list A) : St * list B :=
     match l with
     | [] => (s, [])
     | x :: l' => let '(s1, r) := t s x in
@@ -91,7 +91,7 @@ Section Items.
                  (s2, match r with Some y => y :: out | None => out end)
     end.
 End Items.
-Arguments SList {A}. Arguments SIter {A}. Arguments feat_peek {A}. Arguments contents {A}. Arguments iterate {A St}.
+Arguments SList {A}. Arguments SIter {A}. Arguments feat_peek {A}. Arguments contents {A}. Arguments iterate {A St B}.
 
 (* ---- inspect(): counts over the first [limit] features (limit 0/None = all) ---- *)
 Fixpoint count_occ_str (x : str) (l : list str) : nat :=
